@@ -112,8 +112,9 @@ def get_buffer_dimensions(ordered_objects):
         daqmx_metadata = o.daqmx_metadata
         if dimensions is None:
             raw_data_widths = daqmx_metadata.raw_data_widths
-            # Set width for each buffer
-            dimensions = [(0, w) for w in raw_data_widths]
+            # Set width for each buffer, as Python integers so that sizes of 2 GiB or more
+            # computed from them do not wrap around the 32 bit type of the widths array
+            dimensions = [(0, int(w)) for w in raw_data_widths]
         else:
             if not _lists_are_equal(daqmx_metadata.raw_data_widths, raw_data_widths):
                 raise ValueError(
